@@ -48,7 +48,7 @@ theorem docTree_handles {n : Nat} {c : FContent} {tel : HTree} (hb : BuiltC n c 
     (handles (docTree (n + c.size) vb va tel)).Nodup ∧
     ∀ h ∈ handles (docTree (n + c.size) vb va tel), n ≤ h ∧ h < n + c.size + 1 + vb.length + va.length := by
   unfold docTree
-  simp only [handles, handlesList_append, handlesList]
+  simp only [handles, handlesList_append_ff, handlesList]
   refine ⟨?_, ?_⟩
   · rw [List.nodup_cons]
     refine ⟨?_, ?_⟩
